@@ -1099,8 +1099,26 @@ def big_cases(r, tier):
     return out
 
 
+def has_ti_blob(b):
+    """the parameter list (as the real iterator walks it, header included) contains a non-empty
+    PID_TYPE_INFORMATION value: outside the model (abstract TypeInformation codec), not generated"""
+    if len(b) < 4 or b[1] not in (2, 3):
+        return False
+    order = "big" if b[1] == 2 else "little"
+    i = 0
+    while i + 4 <= len(b):
+        pid = int.from_bytes(bytes(b[i:i + 2]), order)
+        ln = int.from_bytes(bytes(b[i + 2:i + 4]), order)
+        if pid == 1 or i + ln + 4 > len(b):
+            return False
+        if pid == P["TYPE_INFO"] and ln > 0:
+            return True
+        i += ln + 4
+    return False
+
+
 def gen(r, tier):
-    n = {"quick": 1100, "search": 4000, "thorough": 24000}[tier]
+    n = {"quick": 1100, "search": 4000, "thorough": 14000}[tier]
     cases = []
     cases += big_cases(r, tier)
     cases += enc_cases(r, n // 10)
@@ -1115,12 +1133,14 @@ def gen(r, tier):
         elif k < 0.97:
             v = gen_value(r, kind)
             tag, b = mutate(r, kind, v)
-            cases.append(("dec", kind, b, tag))
+            if not has_ti_blob(b):
+                cases.append(("dec", kind, b, tag))
         else:
             b = [r.randint(0, 255) for _ in range(r.randint(0, 40))]
             if r.random() < 0.7:
                 b[:4] = r.choice([[0, 3, 0, 0], [0, 2, 0, 0]])
-            cases.append(("dec", kind, b, "random"))
+            if not has_ti_blob(b):
+                cases.append(("dec", kind, b, "random"))
     return cases
 
 
